@@ -178,13 +178,33 @@ func runC04(c *Ctx) {
 	}
 	c.shared("R9", "C09/R3", "a program that does not assign to the document leaves it as read: a copied null is a plain null (it does not keep the link to the object it was read from, through which a later assignment to the copy would create a member in the document)", keyHas("copy ValueNil", "copy-on-insert"), c09R3)
 	c.note("R6 encoder-output-unmodified: GetRootJson returns exactly string(json.MarshalIndent(ToGoValue(root), \"\", \"  \")) and json(v) exactly that of its argument: no text is produced or rewritten outside encoding/json (a hand-written fast path or a post-processing of the encoder's text is where escaping goes wrong).")
+	// the two may share a helper that is exactly `string(json.MarshalIndent(x, "", "  "))` of its
+	// parameter, without effects: then its result stands for that text
+	enc := func(x string) string { return `string(encoding/json.MarshalIndent(` + x + `, "", "  ")#0)` }
+	rootText, argText := enc("(*lang.Value).ToGoValue(&e.root.Value)#0"), enc("(*lang.Value).ToGoValue(args[0])#0")
+	for _, h := range p.Funcs {
+		if !p.InLang(h) || p.inTestFile(h) || h.Parent() != nil || len(h.Params) != 1 || h.Signature.Recv() != nil || h.Signature.Results().Len() != 2 || len(h.Blocks) == 0 {
+			continue
+		}
+		rcs := p.successResults(h)
+		if len(rcs) != 1 || rcs[0].Value != enc(h.Params[0].Name()) {
+			continue
+		}
+		c.checkArm("R6", "encoder helper "+shortName(h), h, armSpec{
+			Results: []string{enc(h.Params[0].Name())},
+			Effects: []string{},
+			Source:  "the shared helper returns the encoder's text for its argument",
+		})
+		rootText = shortName(h) + "((*lang.Value).ToGoValue(&e.root.Value)#0)#0"
+		argText = shortName(h) + "((*lang.Value).ToGoValue(args[0])#0)#0"
+	}
 	c.checkArm("R6", "GetRootJson", p.LangFunc("(*Evaluator).GetRootJson"), armSpec{
-		Results: []string{`string(encoding/json.MarshalIndent((*lang.Value).ToGoValue(&e.root.Value)#0, "", "  ")#0)`},
+		Results: []string{rootText},
 		Effects: []string{},
 		Source:  "-o serialises the current root via json.MarshalIndent",
 	})
 	c.checkArm("R6", "builtin json", p.LangFunc("nativeJson"), armSpec{
-		Results: []string{`&lang.NewValue(string(encoding/json.MarshalIndent((*lang.Value).ToGoValue(args[0])#0, "", "  ")#0))`},
+		Results: []string{`&lang.NewValue(` + argText + `)`},
 		Effects: []string{},
 		Source:  "json(v) returns the encoder's text for v",
 	})
